@@ -13,23 +13,101 @@ use crate::util;
 
 /// Re-evaluate the violated property on a modified input. Some(true) = still violated.
 pub fn recheck(v: &Violation, new_input: &str) -> Option<bool> {
+    if v.property == "C13" && new_input != v.input {
+        // the counterfactual input has different offsets: carry the requested range over through a byte alignment
+        let a = v.extra["start"].as_u64()? as usize;
+        let b = v.extra["end"].as_u64()? as usize;
+        // start: before any text inserted at that place; end: after it
+        let lo = map_offsets(&v.input, new_input, &[a], false)?;
+        let hi = map_offsets(&v.input, new_input, &[b], true)?;
+        let mut v2 = v.clone();
+        v2.extra["start"] = serde_json::json!(lo[0]);
+        v2.extra["end"] = serde_json::json!(hi[0].max(lo[0]));
+        return crate::props::violated(&v2, new_input);
+    }
     crate::props::violated(v, new_input)
+}
+
+/// Map byte offsets of `old` to offsets of `new` along a longest-common-subsequence alignment of the part that differs.
+/// A position inside deleted text maps to the place where the deletion happened. None when the differing part is too large.
+pub fn map_offsets(old: &str, new: &str, ps: &[usize], after_insertions: bool) -> Option<Vec<usize>> {
+    let (o, n) = (old.as_bytes(), new.as_bytes());
+    let mut pre = 0;
+    while pre < o.len() && pre < n.len() && o[pre] == n[pre] {
+        pre += 1;
+    }
+    let mut suf = 0;
+    while suf < o.len() - pre && suf < n.len() - pre && o[o.len() - 1 - suf] == n[n.len() - 1 - suf] {
+        suf += 1;
+    }
+    let (ho, hn) = (&o[pre..o.len() - suf], &n[pre..n.len() - suf]);
+    if ho.len().saturating_mul(hn.len()) > 6_000_000 {
+        return None;
+    }
+    // lcs[i][j] = LCS length of ho[i..], hn[j..]
+    let w = hn.len() + 1;
+    let mut lcs = vec![0u32; (ho.len() + 1) * w];
+    for i in (0..ho.len()).rev() {
+        for j in (0..hn.len()).rev() {
+            lcs[i * w + j] = if ho[i] == hn[j] { lcs[(i + 1) * w + j + 1] + 1 } else { lcs[(i + 1) * w + j].max(lcs[i * w + j + 1]) };
+        }
+    }
+    // hull_map[i] = new-hull offset that old-hull offset i corresponds to
+    let mut hull_map = vec![usize::MAX; ho.len() + 1];
+    let (mut i, mut j) = (0, 0);
+    while i < ho.len() {
+        if after_insertions || hull_map[i] == usize::MAX {
+            hull_map[i] = j;
+        }
+        if j < hn.len() && ho[i] == hn[j] && lcs[i * w + j] == lcs[(i + 1) * w + j + 1] + 1 {
+            i += 1;
+            j += 1;
+        } else if j < hn.len() && lcs[i * w + j] == lcs[i * w + j + 1] {
+            j += 1; // inserted byte in new
+        } else {
+            i += 1; // deleted byte of old
+        }
+    }
+    hull_map[ho.len()] = if after_insertions { hn.len() } else { j };
+    let mut out = vec![];
+    for &p in ps {
+        let q = if p < pre {
+            p
+        } else if p > o.len() - suf {
+            // also covers positions past the end of the text
+            p + n.len() - o.len()
+        } else {
+            pre + hull_map[p - pre]
+        };
+        out.push(q);
+    }
+    Some(out)
 }
 
 pub fn matches(f: &Finding, v: &Violation) -> bool {
     match f.classifier.as_str() {
         "input_list" => {
-            let h = util::sha_hex(&v.input);
+            // entries are "<sha of the input>:<kind of failure>": a listed input that starts failing in a different way
+            // (e.g. a panic instead of a non-equivalent splice) is reported
+            let h = format!("{}:{}", util::sha_hex(&v.input), violation_kind(v));
             f.params["inputs"].as_array().map(|a| a.iter().any(|x| x.as_str() == Some(&h))).unwrap_or(false)
         }
         "comment_key" => {
             let keys: Vec<&str> = f.params["keys"].as_array().map(|a| a.iter().filter_map(|x| x.as_str()).collect()).unwrap_or_default();
-            culprit_comment_keys(v).iter().any(|k| keys.contains(&k.as_str()))
+            if culprit_comment_keys(v).iter().any(|k| keys.contains(&k.as_str())) {
+                return true;
+            }
+            // several comments at known positions may each be sufficient on their own (three `// n` lines below three
+            // term markers): counterfactual with ALL comments at known positions removed
+            match remove_comments_with_keys(&v.input, &keys) {
+                Some(x) if x != v.input => recheck(v, &x) == Some(false),
+                _ => false,
+            }
         }
         "repair" => {
             let name = f.params["repair"].as_str().unwrap_or("");
             // F14 explains an exit status only when the read failure is the *only* reason for a non-zero status
-            if name == "cli_f14" && !(v.oracle == "exit-status" && v.detail.contains("(0 changed input(s),")) {
+            if name == "cli_f14" && !(v.oracle == "exit-status" && v.detail.contains("which are the model's only reason for a non-zero status")) {
                 return false;
             }
             match repair(name, &v.input) {
@@ -54,6 +132,42 @@ pub fn matches(f: &Finding, v: &Violation) -> bool {
         }
         _ => false,
     }
+}
+
+/// Coarse kind of a failure: oracle + first word of the detail ("panic:", "spliced", "line", "normal", …).
+pub fn violation_kind(v: &Violation) -> String {
+    let w: String = v.detail.split_whitespace().next().unwrap_or("").chars().filter(|c| c.is_ascii_alphabetic()).collect();
+    format!("{}/{}", v.oracle, w)
+}
+
+pub fn remove_comments_with_keys(input: &str, keys: &[&str]) -> Option<String> {
+    let root = tree::parse_ok(input)?;
+    let leaves = tree::leaves(&root);
+    // a position is matched by shape|parent|grandparent here (the neighbours differ between the comments of one input:
+    // `/ 5:⏎⏎ // 5⏎⏎` has paragraph breaks where `/ 2:⏎ // 2⏎ 222` has text); the recheck decides
+    fn prefix3(k: &str) -> String {
+        k.split('|').take(3).collect::<Vec<_>>().join("|")
+    }
+    let known: std::collections::HashSet<String> = keys.iter().map(|k| prefix3(k)).collect();
+    let mut cuts: Vec<(usize, usize)> = vec![];
+    for c in leaves.iter().filter(|l| tree::is_comment(l.kind())) {
+        if let Some(k) = comment_key(&root, c.start) {
+            if known.contains(&prefix3(&k)) {
+                cuts.push((c.start, c.end()));
+            }
+        }
+    }
+    if cuts.is_empty() {
+        return None;
+    }
+    let mut out = String::new();
+    let mut last = 0;
+    for (a, b) in cuts {
+        out.push_str(&input[last..a]);
+        last = b;
+    }
+    out.push_str(&input[last..]);
+    tree::parse_ok(&out).map(|_| out)
 }
 
 // ------------------------------------------------------------------------------------------------
@@ -454,5 +568,18 @@ pub fn repair(name: &str, input: &str) -> Option<String> {
             Some(cur)
         }
         _ => None,
+    }
+}
+
+#[cfg(test)]
+mod tests {
+    use super::map_offsets;
+    #[test]
+    fn offsets() {
+        assert_eq!(map_offsets("ab/*c*/de", "abde", &[0, 2, 4, 7, 8, 9, 12], false).unwrap(), vec![0, 2, 2, 2, 3, 4, 7]);
+        assert_eq!(map_offsets("#(1)e + (2)f", "#(zz)e + (zz)f", &[4, 9, 12], false).unwrap(), vec![5, 10, 14]);
+        assert_eq!(map_offsets("#(1)e + (2)f", "#(zz)e + (zz)f", &[3, 10], true).unwrap(), vec![4, 12]);
+        assert_eq!(map_offsets("[/*c*/]", "[ /*c*/ ]", &[1, 6, 7], false).unwrap(), vec![1, 7, 9]);
+        assert_eq!(map_offsets("[/*c*/]", "[ /*c*/ ]", &[1, 6], true).unwrap(), vec![2, 8]);
     }
 }
